@@ -3,6 +3,8 @@
 //! property oracles directly to the implementation's outputs.
 pub mod frames;
 pub mod gen;
+pub mod ledger;
+pub mod scen_conn;
 pub mod scenarios;
 pub mod sim;
 pub mod workload;
